@@ -6,6 +6,8 @@ import XV.Spec.Magic
 import XV.Model.Header
 import XV.Model.LoadOutcome
 import XV.Model.Marsh
+import XV.Model.FastLoad
+import XV.Spec.MarshalW
 import XV.Gen.Layouts
 namespace XV.Driver
 open XV XV.Model.Unmarshal
@@ -134,5 +136,20 @@ def marshDispatch (op : String) (args : List String) : Option String :=
       pure (match Spec.Marshal.loads [a, b] data with
         | .ok (v, _) => if hasFloatDeep v then "(skip-float)" else showHex (Model.Marsh.dump v)
         | .error _ => "(err spec-rejects)")
+  | "py.wobj01", [h] => do
+      -- marshal.c's writer in format versions 0/1 (Spec.MarshalW) on the value the host wrote in version 4
+      let data ← parseHex h
+      pure (match Spec.Marshal.loads [3, 12] data with
+        | .ok (v, _) => if hasFloat v then "(skip-float)" else showHex (Spec.MarshalW.wObj v)
+        | .error _ => "(err spec-rejects)")
+  | "x.fastloads", [h] => do
+      -- Model of xdis.marsh.loads (_FastUnmarshaller)
+      let data ← parseHex h
+      pure (match Model.FastLoad.loads data with
+        | .ok (v, rest) => s!"{rest.length} {sexp v}"
+        | .error e => match e with
+          | .eof => "(err EOFError)" | .badCode => "(err ValueError)" | .unicodeError => "(err UnicodeDecodeError)"
+          | .typeError => "(err TypeError)" | .nullValue => "(skip null-value)" | .codeObject => "(skip code-object)"
+          | .outOfFuel => "(err OUT-OF-FUEL)")
   | _, _ => none
 end XV.Driver
